@@ -41,16 +41,18 @@ type variant struct {
 }
 
 var variants = map[string]*variant{
-	"plain":         {name: "plain"},
-	"instr":         {name: "instr", instr: true},
-	"instr-race":    {name: "instr-race", instr: true, race: true},
-	"instrw":        {name: "instrw", instr: true, wide: true},
-	"instrw-race":   {name: "instrw-race", instr: true, wide: true, race: true},
-	"instrs":        {name: "instrs", instr: true, wide: true, strobe: true},
-	"instrs-purego": {name: "instrs-purego", instr: true, wide: true, strobe: true, tags: "purego"},
-	"noavx2":        {name: "noavx2", godebug: "cpu.avx2=off", binOf: "plain"},
-	"purego":        {name: "purego", tags: "purego"},
-	"force32bit":    {name: "force32bit", tags: "force32bit"},
+	"plain":             {name: "plain"},
+	"instr":             {name: "instr", instr: true},
+	"instr-race":        {name: "instr-race", instr: true, race: true},
+	"instr-race-purego": {name: "instr-race-purego", instr: true, race: true, tags: "purego"},
+	"instr-race-noavx2": {name: "instr-race-noavx2", instr: true, race: true, godebug: "cpu.avx2=off", binOf: "instr-race"},
+	"instrw":            {name: "instrw", instr: true, wide: true},
+	"instrw-race":       {name: "instrw-race", instr: true, wide: true, race: true},
+	"instrs":            {name: "instrs", instr: true, wide: true, strobe: true},
+	"instrs-purego":     {name: "instrs-purego", instr: true, wide: true, strobe: true, tags: "purego"},
+	"noavx2":            {name: "noavx2", godebug: "cpu.avx2=off", binOf: "plain"},
+	"purego":            {name: "purego", tags: "purego"},
+	"force32bit":        {name: "force32bit", tags: "force32bit"},
 }
 
 type planItem struct {
@@ -591,6 +593,9 @@ func runCheck(id string) int {
 	}
 	sort.Strings(vnames)
 	for _, v := range vnames {
+		if variants[v] == nil {
+			infra("check %s names unknown build variant %q", id, v)
+		}
 		if variants[v].instr {
 			b.ensureOverlay(variants[v].wide)
 			if variants[v].strobe {
